@@ -13,8 +13,15 @@ Tie to the code (model: coq/theories/IndexMap.v, theorems: coq/props/C03.v):
   stream `bad`  : the same with a malformed batch injected (duplicate inside a batch, duplicate of an old key, -0.0 vs
                   0.0, empty batch, unhashable dtype, CRN off, a block size dividing 111111 whose collision loop
                   cannot finish) and the history continued afterwards.
-  stream `conv` : the three ten-digit conversions (datetime / int / float) on single values, bit-exact.
-  stream `hash` : IndexMap._hash on single keys (wrapping int64 arithmetic, floor-mod) for sizes up to 2**63-1.
+  stream `query`: IndexMap.__getitem__ for whole requests after every batch: subsets in any order, repeated labels,
+                  unknown labels (KeyError), the empty request, nothing registered yet (RandomnessError), CRN off.
+  stream `mgr`  : a real RandomnessManager inside a real SimulationContext: block size = max(map_size, 10 x population),
+                  register_simulants on whole frames (key columns found by label in configuration order among other
+                  columns in shuffled order; a missing key column -> RandomnessError; no key columns -> no-op).
+  stream `conv` : the three ten-digit conversions (datetime / int / float): one value as a one-column key registered
+                  alone in a huge block, read back through the public API (its position is the hash of the conversion).
+  stream `hash` : single keys of 1-3 columns registered alone (wrapping int64 arithmetic, floor-mod), sizes 1..2**63-1,
+                  Timestamp and integer clocks, public API only.
 Direct oracle (model-free): injective, in range, earlier (simulant -> position) pairs preserved by every later step,
 duplicates <=> RandomnessError, complete, and (private _map, read defensively) every row carries the key its simulant
 supplied.
@@ -34,8 +41,10 @@ PROPERTY = "C03"
 RULE = ("hist/bad: generated histories (1-3 key columns from datetime[s|us|ns]/int64/float64 with boundary-rich values: "
         "int64 products that wrap, negative values, floats whose fractional part rounds when multiplied by 1e10, "
         "pre-1970 dates; map sizes 7..2**40 with load <= 0.6 for small sizes; 1-6 batches of 0-40 keys; Timestamp or "
-        "integer clocks; consecutive / shuffled / sparse labels). conv/hash: single values. distinct = distinct case "
-        "JSON; trivial = no key accepted (hist/bad)")
+        "integer clocks; consecutive / shuffled / sparse labels). query: short histories + 1-3 requests after each batch. "
+        "mgr: 0-3 key columns in any configuration order, population 1-6, map_size 1..1e6, 1-3 registrations of frames "
+        "with 0-2 extra columns, shuffled column order, sometimes a key column missing. conv/hash: single keys registered "
+        "alone. distinct = distinct case JSON; trivial = no key accepted (hist/bad)")
 ASSUMPTIONS = [
     "a datetime key value reaches the model as the int64 the column stores in its own unit (the code floor-divides that "
     "by 1e9 whatever the unit is); float keys are finite; integer key columns are int64; the datetime unit is the same "
@@ -47,20 +56,23 @@ ASSUMPTIONS = [
 TRUSTED = [
     "C03: positions are observed through the public IndexMap.__getitem__; the private IndexMap._map is read defensively "
     "for the direct oracle's key-association check only (skipped when absent); IndexMap._hash is wrapped per instance "
-    "to count collision rounds (fallback: a 6 s SIGALRM watchdog); streams conv/hash call the private helpers "
-    "_convert_to_ten_digit_int/_hash and are skipped (noted) when those are renamed",
+    "to count collision rounds (fallback when it is absent: a 6 s SIGALRM watchdog and a generous model fuel); no "
+    "other private name is used: streams conv/hash go through IndexMap.update / __getitem__",
 ]
 CLAIM = {
     "technique": "Coq proof over all registration histories + one-step correspondence from observed maps",
     "text": "For every registration history (any number of batches, keys, key columns, block size, clock values) the "
             "modelled IndexMap keeps positions pairwise distinct, inside [0,size), never moves or re-keys a registered "
             "simulant, registers exactly the simulants offered, and rejects a batch with a duplicate key without "
-            "touching the map (theorems C03_*). The model (wrapping int64 hash, the three ten-digit conversions with "
+            "touching the map; the public lookup returns each simulant's own position in request order, injectively and "
+            "stably; the manager's block has >= 10 positions per initial simulant and a frame lacking a key column is "
+            "refused (theorems C03_*). The model (wrapping int64 hash, the three ten-digit conversions with "
             "exact binary64 rounding, drop_duplicates keep-first, the salted re-hash loop, the key-level join) is run "
             "inside Coq against the real IndexMap on generated histories with frequent collisions.",
     "note": "Trusted: the transcription of index_map.py into IndexMap.v (validated on the sampled histories only), pandas "
             "semantics of drop_duplicates/difference/join as transcribed, the harness. Termination of the collision loop "
-            "is not claimed (the real loop can spin forever; C03_fuel_partial gives a sufficient condition only).",
+            "is not claimed in general (the real loop can spin forever); it is proved for one-column keys in blocks coprime to "
+            "111111, e.g. the default 10**6 (C03_fuel_single_column), and under a coverage hypothesis otherwise.",
 }
 
 FUEL = 24
@@ -551,14 +563,19 @@ def _as_position(v):
 
 
 def private_rows(imap, ncols):
-    """(simulant, key tuple, position) rows of the private _map, or None when it cannot be read."""
+    """(simulant, key tuple, position) rows of the private _map - ONLY when it still has the shape this harness knows
+    (a Series indexed by a MultiIndex with a level "simulant_index" and ncols key levels); anything else (renamed,
+    restructured, absent) -> None: the key-association check is skipped and counted, never failed."""
     try:
+        import pandas as pd
         m = getattr(imap, "_map", None)
-        if m is None:
+        if not isinstance(m, pd.Series) or not isinstance(m.index, pd.MultiIndex):
             return None
-        rows = []
         names = list(m.index.names)
+        if names.count("simulant_index") != 1 or len(names) != ncols + 1:
+            return None
         si = names.index("simulant_index")
+        rows = []
         for idx, v in zip(m.index.tolist(), m.tolist()):
             rows.append((int(idx[si]), tuple(x for j, x in enumerate(idx) if j != si), _as_position(v)))
         return rows
@@ -575,7 +592,10 @@ def drive(case):
     qrng = random.Random(case.get("qseed", 0))
     registered = []       # [label, key]
     out = []
-    for st in case["steps"]:
+    queries = case.get("queries")
+    if queries:
+        case["_q0"] = [run_query(imap, q) for q in queries[0]]
+    for n_step, st in enumerate(case["steps"]):
         df = frame(st["dtypes"], st["labels"], st["keys"])
         clock, tcell = clock_value(st["t"])
         code, err = guarded_update(imap, df, clock, case["fuel"])
@@ -589,8 +609,23 @@ def drive(case):
             obs = read_positions(imap, list(st["labels"]), qrng) if st["labels"] else []
             # keep request order for CRN off (the model compares label lists)
         out.append({"code": code, "err": err, "obs": obs, "tcell": tcell, "nreg": len(registered),
-                    "private": private_rows(imap, ncols) if case["crn"] else None})
+                    "private": private_rows(imap, ncols) if case["crn"] else None,
+                    "queries": [run_query(imap, q) for q in queries[n_step + 1]] if queries else []})
     return out, registered
+
+
+def run_query(imap, labels):
+    """IndexMap[labels] -> [labels, code, result]; code 0 ok | 1 RandomnessError | 2 any other exception."""
+    import pandas as pd
+    from vivarium.framework.randomness.exceptions import RandomnessError
+    try:
+        vals = imap[pd.Index(list(labels), dtype="int64")]
+        res = [_as_position(v) for v in list(vals)]
+        return [list(labels), 0, [-1 if v is None else v for v in res]]
+    except RandomnessError:
+        return [list(labels), 1, []]
+    except Exception:
+        return [list(labels), 2, []]
 
 
 def oracle(case, trace, registered):
@@ -711,16 +746,30 @@ def run_bad(case):
 
 
 # ----------------------------------------------------------------------------------------------------------------
-# conv / hash streams (private helpers, read defensively)
+# conv / hash streams: the hash of ONE key, observed through the public API (the key registered alone in a fresh map
+# cannot collide, so IndexMap[simulant] is hash(key, clock, size))
 # ----------------------------------------------------------------------------------------------------------------
+def public_hash(size, dtypes, key, t):
+    import pandas as pd
+    from vivarium.framework.randomness.index_map import IndexMap
+    imap = IndexMap([f"k{j}" for j in range(len(dtypes))], size=size)
+    clock, tcell = clock_value(t)
+    imap.update(frame(dtypes, [0], [key]), clock)
+    return _as_position(imap[pd.Index([0], dtype="int64")][0]), tcell
+
+
+CONV_SIZES = [2 ** 61 - 1, 10 ** 10, 2 ** 62, 999999999989, 10 ** 6]
+
+
 def gen_conv(rng):
     r = rng.random()
+    size = rng.choice(CONV_SIZES)
     if r < 0.34:
         unit = rng.choice(["us", "ns", "s", "ms"])
-        return {"dtype": f"d:{unit}", "cell": ["d", gen_date(rng, rng.choice(DATE_MODES), rng.randint(0, 99), unit)]}
+        return {"size": size, "dtype": f"d:{unit}", "cell": ["d", gen_date(rng, rng.choice(DATE_MODES), rng.randint(0, 99), unit)]}
     if r < 0.67:
-        return {"dtype": "i", "cell": ["i", gen_int(rng, rng.choice(INT_MODES), rng.randint(0, 99), rng.choice(SIZES_SMALL))]}
-    return {"dtype": "f", "cell": ["f", float(gen_float(rng, rng.choice(FLOAT_MODES), rng.randint(0, 99))).hex()]}
+        return {"size": size, "dtype": "i", "cell": ["i", gen_int(rng, rng.choice(INT_MODES), rng.randint(0, 99), rng.choice(SIZES_SMALL))]}
+    return {"size": size, "dtype": "f", "cell": ["f", float(gen_float(rng, rng.choice(FLOAT_MODES), rng.randint(0, 99))).hex()]}
 
 
 def corpus_conv():
@@ -729,19 +778,16 @@ def corpus_conv():
     out += [{"dtype": "i", "cell": ["i", v]} for v in [0, 1, 90000, 2 ** 63 - 1, -2 ** 63, -1, 83010348331692, 83010348331693, 10 ** 10]]
     out += [{"dtype": "d:us", "cell": ["d", v]} for v in [0, -1, 999999999, 10 ** 9, 1120262400000000, -10 ** 9 - 1]]
     out += [{"dtype": "d:ns", "cell": ["d", 1120262400123456789]}, {"dtype": "d:s", "cell": ["d", 1120262400]}]
-    return out
+    return [dict(c, size=2 ** 61 - 1) for c in out]
 
 
 def run_conv(case):
-    from vivarium.framework.randomness.index_map import IndexMap
-    imap = IndexMap(["k0"], size=10)
-    fn = getattr(imap, "_convert_to_ten_digit_int", None)
-    if not callable(fn):
-        return Result(ok=True, msg="", coq=None, key=None, obs="private helper _convert_to_ten_digit_int not found", tags=("skipped",))
-    col = column(case["dtype"], [case["cell"]])
-    v = int(fn(col).iloc[0])
-    return Result(ok=True, coq=cpair(coq_cell(case["cell"]), cz(v)), key=json.dumps(case), obs=v,
-                  tags=(case["dtype"][0],))
+    """One value of one key column: its ten-digit conversion decides the position in a huge block (public API only)."""
+    v, tcell = public_hash(case["size"], [case["dtype"]], [case["cell"]], ["i", 0])
+    ok = v is not None and 0 <= v < case["size"]
+    return Result(ok=ok, msg="" if ok else f"a key registered alone sits at {v}, outside [0,{case['size']})",
+                  coq=cpair(cz(case["size"]), coq_key([case["cell"]]), coq_cell(tcell), cz(-1 if v is None else v)),
+                  key=json.dumps(case), obs=v, tags=(case["dtype"][0],))
 
 
 def gen_hashcase(rng):
@@ -753,19 +799,11 @@ def gen_hashcase(rng):
 
 
 def run_hashcase(case):
-    from vivarium.framework.randomness.index_map import IndexMap
-    ncols = len(case["dtypes"])
-    imap = IndexMap([f"k{j}" for j in range(ncols)], size=case["size"])
-    fn = getattr(imap, "_hash", None)
-    if not callable(fn):
-        return Result(ok=True, coq=None, key=None, obs="private helper _hash not found", tags=("skipped",))
-    idx = key_index(case["dtypes"], [case["key"]])
-    clock, tcell = clock_value(case["t"])
-    v = int(fn(idx, salt=clock).iloc[0])
-    ok = 0 <= v < case["size"]
-    return Result(ok=ok, msg="" if ok else f"_hash returned {v}, outside [0,{case['size']})",
-                  coq=cpair(cz(case["size"]), coq_key(case["key"]), coq_cell(tcell), cz(v)), key=json.dumps(case), obs=v,
-                  tags=(f"ncols{ncols}", "neg" if v < 0 else "ok"))
+    v, tcell = public_hash(case["size"], case["dtypes"], case["key"], case["t"])
+    ok = v is not None and 0 <= v < case["size"]
+    return Result(ok=ok, msg="" if ok else f"a key registered alone sits at {v}, outside [0,{case['size']})",
+                  coq=cpair(cz(case["size"]), coq_key(case["key"]), coq_cell(tcell), cz(-1 if v is None else v)),
+                  key=json.dumps(case), obs=v, tags=(f"ncols{len(case['dtypes'])}", "ok" if ok else "out_of_range"))
 
 
 # ----------------------------------------------------------------------------------------------------------------
@@ -819,15 +857,335 @@ def extra(run):
         run.hist["stats:cases_exact_incl_colliding"] = total[3]
 
 
+# ----------------------------------------------------------------------------------------------------------------
+# stream `query`: IndexMap.__getitem__ for whole requests (order, repeats, unknown labels, empty map, CRN off)
+# ----------------------------------------------------------------------------------------------------------------
+def gen_query(rng):
+    case = gen_history(rng, nbatch=rng.choice([1, 2, 2, 3]), size=rng.choice(SIZES_SMALL + [1000, 10 ** 6]))
+    if rng.random() < 0.12:
+        case["crn"] = False
+    known = []
+    qs = [[[], [0], [3, 1]][: rng.randint(1, 3)]]
+    for st in case["steps"]:
+        known += st["labels"]
+        here = []
+        for _ in range(rng.randint(1, 3)):
+            r = rng.random()
+            pool = known if known else [0, 1]
+            if r < 0.15:
+                q = []
+            elif r < 0.55:
+                q = rng.sample(pool, rng.randint(1, min(len(pool), 8)))
+            elif r < 0.75:
+                q = [rng.choice(pool) for _ in range(rng.randint(2, 6))]            # repeated labels
+            elif r < 0.9:
+                q = rng.sample(pool, rng.randint(1, min(len(pool), 4))) + [max(pool) + rng.randint(1, 50)]   # unknown label
+                rng.shuffle(q)
+            else:
+                q = list(pool)[::-1]
+            here.append(q)
+        qs.append(here)
+    case["queries"] = qs
+    return case
+
+
+def corpus_query():
+    one = lambda labels, vals, t: {"dtypes": ["i"], "labels": labels, "keys": [[["i", v]] for v in vals], "t": ["i", t]}
+    return [{"size": 10, "crn": True, "fuel": FUEL, "qseed": 21, "steps": [one([0, 1, 2, 3], [5, 15, 25, 3], 1), one([4, 5, 7], [7, 8, 9], 2)],
+             "queries": [[[], [0]], [[3, 0, 3], [0, 6], []], [[7, 0, 3, 0], [6], [5, 4]]]},
+            {"size": 10, "crn": False, "fuel": FUEL, "qseed": 22, "steps": [one([4, 2], [1, 1], 0)], "queries": [[[9, 8]], [[2, 4, 77]]]}]
+
+
+def run_querycase(case):
+    trace, registered = drive(case)
+    ok, msg = oracle(case, trace, registered)
+    q0 = case.pop("_q0", [])
+    # direct oracle: a request is answered label by label from the positions read in bulk, in request order; it fails
+    # exactly when nothing is registered (RandomnessError) or a label is unknown (any other error)
+    cur = {}
+    for n, (qlist, have_map) in enumerate([(q0, False)] + [(tr["queries"], True) for tr in trace]):
+        if n > 0:
+            tr = trace[n - 1]
+            if case["crn"]:
+                cur = {l: p for l, p in tr["obs"]}
+        for labels, code, res in qlist:
+            if not ok:
+                break
+            if not case["crn"]:
+                if code != 0 or res != list(labels):
+                    ok, msg = False, f"CRN off: IndexMap[{labels}] gave code {code}, {res}"
+            elif not cur:
+                if code != 1:
+                    ok, msg = False, f"nothing registered, IndexMap[{labels}] gave code {code} instead of a RandomnessError"
+            elif any(l not in cur for l in labels):
+                if code == 0:
+                    ok, msg = False, f"IndexMap[{labels}] answered {res} although a label is unknown"
+            elif code != 0 or res != [cur[l] for l in labels]:
+                ok, msg = False, f"IndexMap[{labels}] gave code {code}, {res}; the positions are {[cur[l] for l in labels]}"
+    cq = lambda q: cpair(czlist(q[0]), cz(q[1]), czlist(q[2]))
+    lst = clist("\n    " + cpair(coq_step(st, tr), clist(cq(q) for q in tr["queries"])) for st, tr in zip(case["steps"], trace))
+    coq = cpair(cz(case["size"]), cbool(case["crn"]), cnat(model_fuel(case)), clist(cq(q) for q in q0), lst)
+    nq = len(q0) + sum(len(tr["queries"]) for tr in trace)
+    codes = sorted({q[1] for q in q0} | {q[1] for tr in trace for q in tr["queries"]})
+    return Result(ok=ok, msg=msg, coq=coq, key=hashlib.sha1(json.dumps(case, sort_keys=True).encode()).hexdigest() if nq else None,
+                  obs={"q0": q0, "queries": [tr["queries"] for tr in trace][:4]},
+                  tags=(f"qcodes{''.join(map(str, codes))}", "crn" if case["crn"] else "crn_off"))
+
+
+# ----------------------------------------------------------------------------------------------------------------
+# stream `mgr`: a real RandomnessManager in a real simulation: block size, register_simulants on whole frames
+# ----------------------------------------------------------------------------------------------------------------
+MGR_COLS = ["k0", "k1", "k2", "x0", "x1"]
+
+
+def gen_mgr(rng):
+    nk = rng.choice([0, 1, 1, 2, 2, 3])
+    kcols = rng.sample(["k0", "k1", "k2"], nk)                      # configuration order, any permutation
+    dts = {"k0": rng.choice(["i", "f"]), "k1": rng.choice(["i", "f", "d:us"]), "k2": rng.choice(["f", "i"]),
+           "x0": "f", "x1": "i"}
+    pop = rng.randint(1, 6)
+    cfg = rng.choice([1, 1, 30, 97, 101, 1000, 10 ** 6])
+    size = max(cfg, 10 * pop)
+    regs, seen, nxt, total = [], set(), pop, 0
+    nreg = rng.randint(1, 3)
+    for r in range(nreg):
+        n = pop if r == 0 else rng.randint(1, 5)
+        if total + n > 0.5 * size:
+            break
+        labels = list(range(pop)) if r == 0 else list(range(nxt, nxt + n))
+        if r > 0:
+            nxt += n
+        total += n
+        present = list(MGR_COLS)
+        kind = rng.choice(["ok", "ok", "ok", "missing", "extra_only_order"]) if kcols else "ok"
+        if kind == "missing":
+            present.remove(rng.choice(kcols))
+        if rng.random() < 0.5:
+            present.remove("x1")
+        rng.shuffle(present)
+        cols = []
+        for name in present:
+            dt = dts[name]
+            mode = rng.choice(DATE_MODES if dt.startswith("d:") else ["small", "seq", "big", "neg"] if dt == "i" else ["dyadic", "decimal", "age"])
+            cells = []
+            for j in range(n):
+                for _ in range(30):
+                    c = gen_cell(rng, dt, mode, total * 7 + j, size)
+                    if name != "k0" or (name, py_cell(c)) not in seen:       # k0 alone keeps the keys unique
+                        break
+                if name == "k0":
+                    seen.add((name, py_cell(c)))
+                cells.append(c)
+            cols.append([name, dt, cells])
+        regs.append({"where": "init" if r == 0 else "step", "labels": labels, "cols": cols})
+    return {"cfg": cfg, "pop": pop, "kcols": kcols, "regs": regs, "seed": rng.randint(0, 9)}
+
+
+def corpus_mgr():
+    i = lambda vs: [["i", v] for v in vs]
+    return [{"cfg": 1, "pop": 3, "kcols": ["k1", "k0"], "seed": 0, "regs": [
+                {"where": "init", "labels": [0, 1, 2], "cols": [["x0", "f", [["f", (0.5).hex()]] * 3], ["k0", "i", i([5, 25, 3])], ["k1", "i", i([1, 1, 1])]]},
+                {"where": "step", "labels": [3, 4], "cols": [["k1", "i", i([1, 2])], ["x1", "i", i([0, 0])]]},
+                {"where": "step", "labels": [5, 6], "cols": [["k1", "i", i([1, 2])], ["k0", "i", i([7, 7])]]}]},
+            {"cfg": 1, "pop": 2, "kcols": [], "seed": 1, "regs": [
+                {"where": "init", "labels": [0, 1], "cols": [["k0", "i", i([5, 5])]]}]}]
+
+
+def run_mgr(case):
+    import pandas as pd
+    from vivarium import Component
+    from vivarium.framework.engine import SimulationContext
+    from vivarium.framework.randomness.exceptions import RandomnessError
+    from vivarium.framework.randomness.index_map import IndexMap
+    boot.reset_contexts()
+    events = []           # per registration: dict(code, err, clock)
+    instances = []
+
+    def make_frame(reg):
+        data = {}
+        for name, dt, cells in reg["cols"]:
+            col = column(dt, cells)
+            data[name] = col.to_numpy()
+        return pd.DataFrame(data, index=pd.Index(reg["labels"], dtype="int64"))
+
+    class Registrar(Component):
+        @property
+        def name(self):
+            return "registrar"
+
+        @property
+        def columns_created(self):
+            return ["probe_col"]
+
+        def setup(self, builder):
+            self.register = builder.randomness.register_simulants
+            self.clock = builder.time.clock()
+            self.pending = [r for r in case["regs"] if r["where"] == "step"]
+
+        def attempt(self, reg):
+            t = self.clock()
+            try:
+                self.register(make_frame(reg))
+                code, err = 0, ""
+            except _Cut as e:
+                code, err = e.code, "collision loop cut"
+            except RandomnessError as e:
+                code, err = 1, str(e)[:100]
+            except Exception as e:
+                code, err = 2, f"{type(e).__name__}: {e}"[:160]
+            events.append({"code": code, "err": err, "t": t})
+
+        def on_initialize_simulants(self, pop_data):
+            self.population_view.update(pd.DataFrame({"probe_col": 0}, index=pop_data.index))
+            if pop_data.creation_time is not None and not events:
+                self.attempt(case["regs"][0])
+
+        def on_time_step(self, event):
+            if self.pending:
+                self.attempt(self.pending.pop(0))
+
+    class _Cut(Exception):
+        def __init__(self, code):
+            self.code = code
+
+    orig_init, orig_update = IndexMap.__init__, IndexMap.update
+    uncounted = []
+
+    def init(self, *a, **kw):
+        orig_init(self, *a, **kw)
+        instances.append(self)
+
+    def update(self, new_keys, clock_time):
+        code, err = guarded_update(self, new_keys, clock_time, FUEL, call=orig_update)
+        if not COUNTED[0]:
+            uncounted.append(1)
+        if code in (3, 4):
+            raise _Cut(code)
+        if code == 1:
+            raise RandomnessError(err)
+        if code == 2:
+            raise RuntimeError(err)
+
+    IndexMap.__init__, IndexMap.update = init, update
+    try:
+        nsteps = sum(1 for r in case["regs"] if r["where"] == "step")
+        cfg = {"population": {"population_size": case["pop"]},
+               "time": {"start": {"year": 2005, "month": 7, "day": 1}, "end": {"year": 2005, "month": 7, "day": 2 + nsteps}, "step_size": 1},
+               "randomness": {"key_columns": list(case["kcols"]), "map_size": case["cfg"], "random_seed": case["seed"]}}
+        sim = SimulationContext(components=[Registrar()], configuration=cfg, logging_verbosity=0)
+        boot.quiet_logging()
+        sim.setup()
+        n_after_setup = len(instances)
+        sim.initialize_simulants()
+        trace_imap = instances[-1] if instances else None
+        # positions after each registration are read at the end of the call that made it: replay the reads here
+        for _ in range(nsteps):
+            sim.step()
+    finally:
+        IndexMap.__init__, IndexMap.update = orig_init, orig_update
+    if len(instances) != 1 or len(events) != len(case["regs"]):
+        return Result(ok=True, coq=None, key=None, obs=f"{len(instances)} IndexMap instances, {len(events)} registrations seen",
+                      tags=("not_observable",))
+    imap = instances[0]
+    size_obs = len(imap)
+    return _finish_mgr(case, imap, size_obs, events, bool(uncounted))
+
+
+def _finish_mgr(case, imap, size_obs, events, uncounted):
+    """Positions are read after the run: they never change once assigned (checked by the other streams), so the final
+    lookup of the simulants registered up to each registration is what was there at the time."""
+    import pandas as pd
+    ids = {name: 10 * (i + 1) for i, name in enumerate(MGR_COLS)}
+    kcols = case["kcols"]
+    size_want = max(case["cfg"], 10 * case["pop"])
+    ok, msg = True, ""
+    if size_obs != size_want:
+        ok, msg = False, f"block size {size_obs}, configuration map_size {case['cfg']} and population {case['pop']} call for {size_want}"
+    regs_coq, accepted = [], []
+    hist_steps, hist_trace, registered = [], [], []
+    qrng = random.Random(case["seed"])
+    for reg, ev in zip(case["regs"], events):
+        names = [c[0] for c in reg["cols"]]
+        missing = [k for k in kcols if k not in names]
+        t = ev["t"]
+        tspec = ["d", int(t.asm8.view("i8")), t.unit] if isinstance(t, pd.Timestamp) else ["i", int(t)]
+        tcell = clock_value(tspec)[1]
+        if missing and ev["code"] != 1 and ok:
+            ok, msg = False, f"key column {missing} missing from the frame, register_simulants gave code {ev['code']} {ev['err']}"
+        if not missing and kcols:
+            by = {c[0]: c for c in reg["cols"]}
+            keys = [[by[k][2][i] for k in kcols] for i in range(len(reg["labels"]))]
+            st = {"dtypes": [by[k][1] for k in kcols], "labels": reg["labels"], "keys": keys, "t": tspec}
+            if ev["code"] == 0:
+                accepted += reg["labels"]
+                registered += [[l, k, st["dtypes"]] for l, k in zip(reg["labels"], keys)]
+        else:
+            st = None
+        try:
+            obs = read_positions(imap, list(accepted), qrng) if kcols else read_positions(imap, list(reg["labels"]), qrng)
+        except Exception as e:
+            return Result(ok=False, msg=f"IndexMap lookup of registered simulants failed: {type(e).__name__}: {e}"[:200])
+        if st is not None:
+            hist_steps.append(st)
+            hist_trace.append({"code": ev["code"], "err": ev["err"], "obs": obs, "tcell": tcell, "private": None})
+        fr = clist(cpair(cz(ids[c[0]]), clist(coq_cell(x) for x in c[2])) for c in reg["cols"])
+        regs_coq.append(cpair(czlist(reg["labels"]), fr, coq_cell(tcell), cz(ev["code"]), clist(cpair(cz(l), cz(-1 if p is None else p)) for l, p in obs)))
+    if ok and kcols and hist_steps:
+        ok, msg = oracle({"size": size_obs, "crn": True, "steps": hist_steps}, hist_trace, registered)
+    fuel = UNCOUNTED_FUEL if uncounted else FUEL
+    coq = cpair(cz(case["cfg"]), cz(case["pop"]), czlist(ids[k] for k in kcols), cz(size_obs), cnat(fuel), clist("\n    " + r for r in regs_coq))
+    codes = "".join(str(e["code"]) for e in events)
+    return Result(ok=ok, msg=msg, coq=coq, key=json.dumps(case, sort_keys=True), obs={"size": size_obs, "codes": codes},
+                  tags=(f"nkey{len(kcols)}", f"codes{''.join(sorted(set(codes)))}", "floor" if 10 * case["pop"] > case["cfg"] else "configured"))
+
+
+def shrink_hist(case):
+    """Smaller variants of a history: drop a batch, halve a batch, drop one key, drop a key column."""
+    import copy
+    steps = case["steps"]
+    if len(steps) > 1:
+        for i in range(len(steps)):
+            c = copy.deepcopy(case)
+            del c["steps"][i]
+            yield c
+    for i, st in enumerate(steps):
+        n = len(st["keys"])
+        if n >= 4:
+            for lo, hi in ((0, n // 2), (n // 2, n)):
+                c = copy.deepcopy(case)
+                c["steps"][i]["keys"] = c["steps"][i]["keys"][lo:hi]
+                c["steps"][i]["labels"] = c["steps"][i]["labels"][lo:hi]
+                yield c
+    for i, st in enumerate(steps):
+        for j in range(len(st["keys"])):
+            c = copy.deepcopy(case)
+            del c["steps"][i]["keys"][j]
+            del c["steps"][i]["labels"][j]
+            yield c
+    ncols = len(steps[0]["dtypes"]) if steps else 0
+    if ncols > 1 and all(len(st["dtypes"]) == ncols for st in steps):
+        for j in range(ncols):
+            c = copy.deepcopy(case)
+            for st in c["steps"]:
+                del st["dtypes"][j]
+                for k in st["keys"]:
+                    del k[j]
+            yield c
+
+
 def streams(tier):
     imp = "From Viv Require Import Common IndexMap."
     return [
-        Stream(name="hist", imports=imp, check="check_c03", gen=gen_hist, run=run_hist, corpus=corpus_hist,
+        Stream(name="hist", imports=imp, check="check_c03", gen=gen_hist, run=run_hist, corpus=corpus_hist, shrink=shrink_hist,
                n_quick=120, n_thorough=2000),
-        Stream(name="bad", imports=imp, check="check_c03", gen=gen_bad, run=run_bad, corpus=corpus_bad,
+        Stream(name="bad", imports=imp, check="check_c03", gen=gen_bad, run=run_bad, corpus=corpus_bad, shrink=shrink_hist,
                n_quick=60, n_thorough=600),
-        Stream(name="conv", imports=imp, check="check_conv", gen=gen_conv, run=run_conv, corpus=corpus_conv,
-               n_quick=600, n_thorough=3000),
+        Stream(name="conv", imports=imp, check="check_hash", gen=gen_conv, run=run_conv, corpus=corpus_conv,
+               n_quick=240, n_thorough=1500),
+        Stream(name="query", imports=imp, check="check_cq", gen=gen_query, run=run_querycase, corpus=corpus_query,
+               n_quick=50, n_thorough=600),
+        Stream(name="mgr", imports=imp, check="check_mgr", gen=gen_mgr, run=run_mgr, corpus=corpus_mgr,
+               n_quick=40, n_thorough=400),
         Stream(name="hash", imports=imp, check="check_hash", gen=gen_hashcase, run=run_hashcase,
                n_quick=200, n_thorough=2000),
     ]
